@@ -73,20 +73,33 @@ def _grid(d):
     return catalogue()[d - 1][1]
 
 
-def _shift(op, ts, it, warm):
-    if warm and (ts or it):
-        op._key()  # the key of the unshifted operator is asked for (and cached) before the shifted copy is made
-    if ts:
-        op = op.previous_timestep(steps=ts)
-    if it:
-        op = op.previous_iteration(steps=it)
+def _shift(op, ts, it, chain):
+    """direct: one call with steps = ts / it, nothing hashed.  chain: single steps, the operator hashed before each."""
+    for n, f in ((ts, "previous_timestep"), (it, "previous_iteration")):
+        if n and chain:
+            for _ in range(n):
+                hash(op)
+                op = getattr(op, f)()
+        elif n:
+            op = getattr(op, f)(steps=n)
     return op
 
 
-def build(t, warm, n=[0]):
-    """Packed tree -> real operator.  `warm`: see _shift; transposes alternate between .T and .transpose()."""
+def build(t, route="direct", n=[0]):
+    """Packed tree -> real operator by a build route (OperatorKeys!Routes); transposes alternate between .T and
+    .transpose()."""
     import porepy as pp
 
+    if not isinstance(route, str):
+        r, s, base = route
+        if r in ("treeT", "treeI"):
+            op = build(base, "direct")
+            for _ in range(s):
+                hash(op)
+                op = op.previous_timestep() if r == "treeT" else op.previous_iteration()
+            return op
+        route = r
+    chain = route == "chain"
     k = t[0]
     if len(t) == 9:
         _, name, a, b, m, nn, ts, it, flag = t
@@ -98,11 +111,11 @@ def build(t, warm, n=[0]):
             mat = np.array(a, dtype=float).reshape(m, nn)
             return pp.ad.SparseArray({"csr": sps.csr_matrix, "csc": sps.csc_matrix}[name](mat))
         if k == "var":
-            return _shift(pp.ad.Variable(name, {"cells": 1}, _grid(a[0])), ts, it, warm)
+            return _shift(pp.ad.Variable(name, {"cells": 1}, _grid(a[0])), ts, it, chain)
         if k == "mdvar":
-            return _shift(pp.ad.MixedDimensionalVariable([pp.ad.Variable(name, {"cells": 1}, _grid(d)) for d in a]), ts, it, warm)
+            return _shift(pp.ad.MixedDimensionalVariable([pp.ad.Variable(name, {"cells": 1}, _grid(d)) for d in a]), ts, it, chain)
         if k == "tdarray":
-            return _shift(pp.ad.TimeDependentDenseArray(name, [_grid(d) for d in a]), ts, 0, warm)
+            return _shift(pp.ad.TimeDependentDenseArray(name, [_grid(d) for d in a]), ts, 0, chain)
         if k == "proj":
             p = pp.ad.Projection(np.array(a, dtype=int), np.array(b, dtype=int), m, nn)
             if flag:
@@ -115,7 +128,7 @@ def build(t, warm, n=[0]):
                 rng[[nn, nn + 1]] = rng[[nn + 1, nn]]
             return pp.ad.Projection(np.arange(m), rng, m, m)
         raise ValueError(k)
-    ch = [build(c, warm) for c in t[2]]
+    ch = [build(c, route) for c in t[2]]
     if k == "op":
         return PYOP[t[1]](ch[0], ch[1])
     if k == "fn":
@@ -126,9 +139,10 @@ def build(t, warm, n=[0]):
 
 
 def execute(pair):
-    out = dict(t1=pair["t1"], t2=pair["t2"], keyeq=False, hasheq=False, err="", k1="", k2="")
+    route = pair.get("route") or ["direct", 0, pair["t2"]]
+    out = dict(t1=pair["t1"], t2=pair["t2"], route=route, keyeq=False, hasheq=False, err="", k1="", k2="")
     try:
-        o1, o2 = build(pair["t1"], False), build(pair["t2"], True)
+        o1, o2 = build(pair["t1"], "direct"), build(pair["t2"], route)
         k1, k2 = o1._key(), o2._key()
         out.update(keyeq=bool(k1 == k2), hasheq=bool(hash(o1) == hash(o2)), k1=k1[:300], k2=k2[:300])
     except Exception as e:  # an exception on an in-family tree is an observation: the clauses fail in TLC
@@ -207,6 +221,16 @@ def _m_plist(rec):
     return True
 
 
+def _m_tree_shift(rec):
+    """t2 was built by pushing back a composite tree whose key had been cached (route treeT / treeI) and its key is
+    still that of the tree the route started from: t2 rebuilt differs from itself (EqualKeys), or t1 is that start tree
+    (DistinctKeys)."""
+    r, s, base = rec["route"]
+    if r not in ("treeT", "treeI"):
+        return False
+    return (rec["clause"] == "EqualKeys" and rec["t1"] == rec["t2"]) or (rec["clause"] == "DistinctKeys" and rec["t1"] == base)
+
+
 def _m_long(rec):
     """All differences are index values in the middle of index arrays with more than 1000 entries."""
     s = sites(rec["t1"], rec["t2"])
@@ -218,6 +242,7 @@ MATCHERS = {
     "domain_kind_not_in_key": _m_domain_kind,
     "projection_list_key_from_repr": _m_plist,
     "long_index_array_abbreviated": _m_long,
+    "tree_shift_keeps_cached_key": _m_tree_shift,
 }
 
 
@@ -236,14 +261,14 @@ def _show(t):
 def _class_key(c):
     s = sites(c["t1"], c["t2"])
     root = c["t1"][0] if len(c["t1"]) == 9 else c["t1"][0] + ":" + str(c["t1"][1])
-    return (root, tuple(sorted({(k, f) for _, k, f, _ in s})))
+    return (root, c["route"][0], tuple(sorted({(k, f) for _, k, f, _ in s})))
 
 
 def judge(ctx, cases, prefix=""):
     for b in range(0, len(cases), BATCH):
         chunk = cases[b:b + BATCH]
-        slim = [{k: c[k] for k in ("t1", "t2", "keyeq", "hasheq", "err")} for c in chunk]
-        for v in ctx.judge("J_OperatorKeys", slim, CLAUSES + DRIFT, consts=dict(NGrids=ngrids()), workers=8,
+        slim = [{k: c[k] for k in ("t1", "t2", "route", "keyeq", "hasheq", "err")} for c in chunk]
+        for v in ctx.judge("J_OperatorKeys", slim, CLAUSES + DRIFT, consts=dict(NGrids=ngrids(), TreeShiftKeepsKey=False), workers=8,
                            tag=f"j{len(ctx.tlc_runs)}"):
             if "clause" not in v:
                 continue
@@ -251,7 +276,9 @@ def judge(ctx, cases, prefix=""):
             if v["clause"] in DRIFT:
                 ctx.drift(f"{v['clause']}: t1={_show(c['t1'])} t2={_show(c['t2'])} keys equal: {c['keyeq']}; key1={c['k1'][:100]!r} key2={c['k2'][:100]!r}")
                 continue
-            ctx.violation(v["clause"], c, prefix + f"t1={_show(c['t1'])}  t2={_show(c['t2'])}  keys equal: {c['keyeq']}, hashes equal: "
+            ctx.violation(v["clause"], c, prefix + f"t1={_show(c['t1'])}  t2={_show(c['t2'])} built by {c['route'][0]}"
+                          + (f"({c['route'][1]} steps from {_show(c['route'][2])})" if c["route"][0].startswith("tree") else "")
+                          + f"  keys equal: {c['keyeq']}, hashes equal: "
                           f"{c['hasheq']}" + (f", raised {c['err']}" if c["err"] else f"; key1={c['k1'][:120]!r} key2={c['k2'][:120]!r}"))
 
 
@@ -265,12 +292,15 @@ def run(ctx):
                 "operation tag, function name, child order, regrouping). Every pair is built with the real classes on a real md-grid; "
                 "evaluations = judged pairs; distinct = (root kind, mutated field) classes")
     ctx.assumptions = ["variables / arrays are built directly (pp.ad.Variable(name, ndof, grid), ...), not looked up in an EquationSystem",
-                       "t1 is built cold, t2 with the key of the unshifted variable cached before previous_timestep / previous_iteration",
+                       "t1 is built 'direct' (one previous_timestep(steps=ts) / previous_iteration(steps=it) per leaf, nothing hashed); t2 "
+                       "by every build route: chains of single shifts with the operator hashed before each step, and - for composite "
+                       "trees whose time-dependent leaves are all pushed back - whole-tree previous_timestep / previous_iteration of "
+                       "the hashed unshifted tree",
                        "two descriptions of one projection matrix (transpose of transposed data) are not judged either way",
                        "1-D dense arrays only; sparse matrices of the scipy *_matrix classes in csr / csc format"]
     consts = leaf_sets(ctx)
     m, cf = tlc.gen(ctx.work / "enum", "MC_OperatorKeysEnum", "OperatorKeysEnum", consts,
-                    invariants=["Emit", "LawExclusive", "LawMutantsNotEqual", "LawPackRoundTrip"])
+                    invariants=["Emit", "LawExclusive", "LawMutantsNotEqual", "LawRouteReachesTree", "LawPackRoundTrip"])
     res = ctx.tlc(m, cf, workers=8, allow_violation=False)
     cases = [execute(p) for p in sorted(res.records, key=lambda r: json.dumps(r, sort_keys=True))]
     for c in cases:
@@ -287,7 +317,7 @@ def run(ctx):
 
 def replay(ctx, body):
     rec = body["record"]
-    c = execute(dict(t1=rec["t1"], t2=rec["t2"]))
+    c = execute(dict(t1=rec["t1"], t2=rec["t2"], route=rec.get("route")))
     ctx.case(key="replay")
     ctx.sample(dict(t1=_show(c["t1"]), t2=_show(c["t2"]), keys_equal=c["keyeq"], hashes_equal=c["hasheq"], key1=c["k1"], key2=c["k2"]))
     judge(ctx, [c], prefix="replayed: ")
